@@ -981,7 +981,7 @@ let run_chipmon_line (line : string) : string =
   String.concat " ; " (List.map (fun op ->
       let (name, tr) = (match String.index_opt op ':' with
           | Some i -> (String.trim (String.sub op 0 i), String.sub op (i + 1) (String.length op - i - 1)) | None -> (op, "")) in
-      let x = { x_fam = fam; x_tcxo = bool_of_tok (get "tcxo" "0"); x_dcdc = bool_of_tok (get "dcdc" "0"); x_listen = (name = "listen") } in
+      let x = { x_fam = fam; x_tcxo = bool_of_tok (get "tcxo" "0"); x_dcdc = bool_of_tok (get "dcdc" "0"); x_listen = (name = "listen"); x_lora = true } in
       m := mon_op x !m (parse_trace tr);
       Printf.sprintf "mode=%s awake=%d asleep=%d start=%d valid=%s" (cmode_str !m.cm) (if !m.awake then 1 else 0)
         (if !m.bad_asleep then 1 else 0) (if !m.bad_start then 1 else 0)
